@@ -29,7 +29,7 @@ def gen_area(r, name, max_extent=7, behind_ok=False):
     if name == 'partially_occluded':
         # documented for views that end at the agent's row; other views may be refused (the caller decides what a
         # refusal means), and one time in ten they are asked for all the same
-        ymax = 0 if (not behind_ok or r.random() < 0.9) else r.randint(1, vh - 1) if vh > 1 else 0
+        ymax = 0 if (not behind_ok or r.random() < 0.9) else r.choice([r.randint(1, vh - 1) if vh > 1 else 0, -r.randint(1, 3)] if behind_ok == 'any' else [r.randint(1, vh - 1) if vh > 1 else 0])
     elif name == 'fully_transparent' and r.random() < 0.3:
         ymax = r.randint(-3, vh + 2)  # origin possibly outside the view
     else:
